@@ -73,10 +73,14 @@ ATTRIBUTE_DATA_MAX = 0xFFFF  # the (extended) length of a path attribute is two 
 
 def prefix(tokeniser: 'Tokeniser') -> IPRange:
     ip = tokeniser()
-    try:
-        ip, mask_str = ip.split('/')
+    if '/' in ip:
+        # a length which is not a number (`10.0.0.0/24x`, `10.0.0.0/`) fell into the "no length" case below and the
+        # route was announced as a /32
+        ip, mask_str = ip.split('/', 1)
+        if not mask_str.isdigit():
+            raise ValueError(f"'{mask_str}' is not a valid prefix length")
         mask = int(mask_str)
-    except ValueError:
+    else:
         mask = 32
         if ':' in ip:
             mask = 128
